@@ -4,6 +4,11 @@ from .. import ir
 
 
 class CJumpPass(InstructionPass):
+    def on_function(self, function):
+        super().on_function(function)
+        # Blocks that were only reachable via a removed branch:
+        function.delete_unreachable()
+
     def on_instruction(self, instruction):
         if (
             isinstance(instruction, ir.CJump)
@@ -22,9 +27,15 @@ class CJumpPass(InstructionPass):
             }
             if mp[instruction.cond](a, b):
                 label = instruction.lab_yes
+                other = instruction.lab_no
             else:
                 label = instruction.lab_no
+                other = instruction.lab_yes
             block = instruction.block
             block.remove_instruction(instruction)
-            block.add_instruction(ir.Jump(label))
             instruction.delete()
+            if other is not label:
+                # This block is no longer a predecessor of the other target:
+                for phi in other.phis:
+                    phi.del_incoming(block)
+            block.add_instruction(ir.Jump(label))
